@@ -555,6 +555,9 @@ macro_rules! from_meta_lit {
             }
         }
 
+        from_meta_lit!($impl_ty);
+    };
+    ($impl_ty:path) => {
         impl FromMeta for Vec<$impl_ty> {
             fn from_list(items: &[NestedMeta]) -> Result<Self> {
                 items
@@ -598,7 +601,18 @@ from_meta_lit!(syn::LitByte, Lit::Byte);
 from_meta_lit!(syn::LitByteStr, Lit::ByteStr);
 from_meta_lit!(syn::LitChar, Lit::Char);
 from_meta_lit!(syn::LitBool, Lit::Bool);
-from_meta_lit!(proc_macro2::Literal, Lit::Verbatim);
+from_meta_lit!(proc_macro2::Literal);
+
+/// Any literal token; `true` and `false` are identifiers and a negative number is two tokens.
+impl FromMeta for proc_macro2::Literal {
+    fn from_value(value: &Lit) -> Result<Self> {
+        match value {
+            Lit::Verbatim(literal) => Ok(literal.clone()),
+            _ => syn::parse2(quote::ToTokens::to_token_stream(value))
+                .map_err(|_| Error::unexpected_lit_type(value)),
+        }
+    }
+}
 
 impl FromMeta for syn::Meta {
     fn from_meta(value: &syn::Meta) -> Result<Self> {
